@@ -93,6 +93,11 @@ class IntVec:
                 return IntVec(n, lambda k: self.at(n - 1 - k))
             if idx.start is None and idx.stop is None and idx.step is None:
                 return self
+            if idx.stop is None and idx.step is None and isinstance(idx.start, (int, z3.ArithRef)):
+                lo, n, at = idx.start, self.n, self.at          # v[lo:] for 0 <= lo: the tail (empty when lo >= n)
+                ex.oblige(f"pre({ex.site('slice')}).start_not_negative", lo >= 0 if not isinstance(lo, int) else z3.BoolVal(lo >= 0),
+                          "precondition", node)
+                return IntVec(z3.If(n >= lo, n - lo, 0), lambda k: at(k + lo))
             raise U("IntVec slice", node)
         if isinstance(idx, (int, z3.ArithRef)):
             ex.oblige(f"pre({ex.site('index')}).in_bounds", z3.And(0 <= idx, idx < self.n), "index", node)
